@@ -193,7 +193,10 @@ func runEpisode(w *bufio.Writer, id string, ep bEpisode) (lines int) {
 	obsAll()
 	next := 20
 	for _, op := range ep.ops {
-		s := all[op.S-1]
+		var s *z.StructSchema
+		if op.S >= 1 {
+			s = all[op.S-1]
+		}
 		ks := goArgs(op)
 		before := len(all)
 		perr := ""
@@ -220,6 +223,13 @@ func runEpisode(w *bufio.Writer, id string, ep bEpisode) (lines int) {
 					ext[k] = bField(k, next+keyIdx[k])
 				}
 				all = append(all, s.Extend(ext))
+				next += 4
+			case "base":
+				nb := z.Struct(z.Schema{"c": bField("c", next)})
+				for i := 1; i <= op.O; i++ {
+					nb.Test(bTest(next + i))
+				}
+				all = append(all, nb)
 				next += 4
 			case "merge":
 				all = append(all, s.Merge(all[op.O-1]))
@@ -264,7 +274,7 @@ var argVariants = true
 
 // every operation applicable in a state with n schemas whose field sets are given
 func applicable(fields [][]string) []bOp {
-	ops := []bOp{}
+	ops := []bOp{{Op: "base", O: 0}, {Op: "base", O: 1}}
 	all := []string{"a", "b", "c"}
 	for s := 1; s <= len(fields); s++ {
 		ops = append(ops, bOp{Op: "test", S: s}, bOp{Op: "pt", S: s})
@@ -278,7 +288,7 @@ func applicable(fields [][]string) []bOp {
 		}
 		for _, ks := range subsets(all) {
 			ops = append(ops, bOp{Op: "omit", S: s, Keys: ks}, bOp{Op: "extend", S: s, Keys: ks})
-			if argVariants && len(ks) == 1 {
+			if argVariants {
 				for _, af := range argForms(ks, all) {
 					ops = append(ops, bOp{Op: "omit", S: s, Keys: ks, Args: af})
 				}
@@ -302,6 +312,9 @@ func applyFields(fields [][]string, op bOp) [][]string {
 			}
 		}
 		return false
+	}
+	if op.Op == "base" {
+		return append(append([][]string{}, fields...), []string{"c"})
 	}
 	src := fields[op.S-1]
 	var nf []string
@@ -455,6 +468,8 @@ func showOps(ops []bOp) string {
 	xs := []string{}
 	for _, o := range ops {
 		switch o.Op {
+		case "base":
+			xs = append(xs, fmt.Sprintf("base(tests=%d)", o.O))
 		case "test", "pt":
 			xs = append(xs, fmt.Sprintf("%s(s%d)", o.Op, o.S))
 		case "merge":
